@@ -10,14 +10,15 @@ import (
 
 // one call of the property function, as the property sees it
 type invocation struct {
-	words     []uint64 // not yet consumed buffer at entry (buffer-backed T only)
-	isBuf     bool
-	draws     []string // %#v of every value received from Draw, in order
-	vals      []string // canonical text of the values drawn outside rejected attempts (Custom retries, rejected actions)
-	nsignals  int
-	events    []string
-	ended     string // "ret" if the body returned normally, "" otherwise
-	signalled bool   // a failure statement was executed
+	words          []uint64 // not yet consumed buffer at entry (buffer-backed T only)
+	isBuf          bool
+	draws          []string // %#v of every value received from Draw, in order
+	vals           []string // canonical text of the values drawn outside rejected attempts (Custom retries, rejected actions)
+	nsignals       int
+	signalInCustom bool // a failure statement was executed inside a Custom generator function
+	events         []string
+	ended          string // "ret" if the body returned normally, "" otherwise
+	signalled      bool   // a failure statement was executed
 }
 
 type interp struct {
@@ -50,6 +51,9 @@ func (in *interp) genFor(g *SX) *rapid.Generator[any] {
 func (in *interp) signal(s *SX) {
 	if in.cur != nil {
 		in.cur.signalled = true
+		if in.customDepth > 0 {
+			in.cur.signalInCustom = true
+		}
 		in.cur.nsignals++
 		switch s.Head() {
 		case "error", "fail", "goerror":
